@@ -268,12 +268,29 @@ def run_ns(case):
     wsock = ScriptSock([], case["wscript"])
     w = NetstringSocket(wsock, maxsize=case["wmax"])
     wsteps = []
-    for idx, op in enumerate(case["wops"]):
+    werr_after_partial = 0
+
+    def wstep(op):
+        nonlocal werr_after_partial
+        sc0 = wsock.send_calls
         if op[0] == "write":
             out = _outcome(lambda: w.write_ns(bytes(op[1])))
+        elif op[0] == "flush":
+            out = _outcome(lambda: w.bsock.flush())
         else:
             out = _outcome(lambda: w.setmaxsize(op[1]))
+        if interrupted(out) and wsock.send_calls - sc0 >= 2:
+            werr_after_partial += 1
         wsteps.append([op, out, list(w.bsock.getsendbuffer()), len(wsock.wire)])
+        return out
+
+    for op in case["wops"]:
+        wstep(op)
+    # an interrupted write_ns leaves (part of) its frame in the send buffer: the writer flushes
+    for _ in range(len(case["wscript"]) + 1):
+        if not w.bsock.getsendbuffer():
+            break
+        wstep(["flush"])
     wire = bytes(wsock.wire)
     stream = wire + bytes(case["junk"])
     net = cut_stream(stream, case["cuts"])
@@ -298,7 +315,7 @@ def run_ns(case):
             if not (case.get("retry") and interrupted(out) and tries <= ntmo):
                 break
     return {"wsteps": wsteps, "wwire": list(wire), "net": net, "rsteps": rsteps,
-            "marks": {"ns_multi_recv": multi,
+            "marks": {"ns_multi_recv": multi, "ns_write_interrupted_after_partial": werr_after_partial,
                       "ns_timeouts": sum(1 for s in rsteps if s[1] == ["exn", "Timeout"]),
                       "ns_errors": sum(1 for s in rsteps if s[1][0] == "oserr"),
                       "ns_payloads_read": sum(1 for s in rsteps if s[1][0] == "b")}}
@@ -355,6 +372,8 @@ def c_nsop(op):
         return "ReadNs %s" % c_lim(op[1])
     if op[0] == "write":
         return "WriteNs %s" % cb(op[1])
+    if op[0] == "flush":
+        return "NsFlush"
     return "NsSetMaxsize %s" % cnat(op[1])
 
 
@@ -613,7 +632,13 @@ def gen_ns(rng, tier):
             rops.append(["setmax", rng.choice([5, 9, 10, 99, 100, 4096])])
         else:
             rops.append(["read", None if x < 0.85 else rng.choice([5, 9, 10, 11, 99, 100])])
-    return {"kind": "ns", "wmax": wmax, "wscript": [rng.choice([0, 1, 2, 5, 30]) for _ in range(rng.randint(0, 6))],
+    wscript = [(rand_intr(rng, 0.5) if rng.random() < 0.25 else rng.choice([0, 1, 2, 5, 30]))
+               for _ in range(rng.randint(0, 6))]
+    if rng.random() < 0.5:
+        wscript = [e for e in wscript if not is_intr(e)]
+    if wops and rng.random() < 0.2:
+        wops.insert(rng.randrange(len(wops) + 1), ["flush"])
+    return {"kind": "ns", "wmax": wmax, "wscript": wscript,
             "wops": wops, "rmax": rng.choice([5, 9, 10, 11, 99, 100, 4096, 4096]), "cuts": cuts, "junk": junk,
             "rops": rops, "retry": rng.random() < 0.8}
 
